@@ -38,7 +38,7 @@ pub struct Config11 {
     pub share: Vec<Option<usize>>,
 }
 
-const ISA_NAMES: [&str; 3] = ["x86_64", "aarch64", "rv64"];
+pub const ISA_NAMES: [&str; 3] = ["x86_64", "aarch64", "rv64"];
 
 fn obj_ty() -> Ty {
     Ty::Decl(Identifier { name: "T".into(), id: 0 })
@@ -51,19 +51,19 @@ fn binding(name: &str, id: usize, kind: Kind) -> ContextBinding {
     }
 }
 
-struct Plan {
-    old_ctx: TypingContext,
-    rearrange: Vec<(ContextBinding, Identifier)>,
+pub struct Plan {
+    pub old_ctx: TypingContext,
+    pub rearrange: Vec<(ContextBinding, Identifier)>,
     /// per position: (fst, snd) initial values
-    init: Vec<(u64, u64)>,
-    positions: usize,
-    heap: Vec<u64>,
-    free_reg: u64,
-    block_of: Vec<Option<u64>>,
-    count_of: Vec<u64>,
+    pub init: Vec<(u64, u64)>,
+    pub positions: usize,
+    pub heap: Vec<u64>,
+    pub free_reg: u64,
+    pub block_of: Vec<Option<u64>>,
+    pub count_of: Vec<u64>,
 }
 
-fn plan(c: &Config11) -> Plan {
+pub fn plan(c: &Config11) -> Plan {
     let n = c.kinds.len();
     let w = c.window;
     let mut old = Vec::new();
@@ -136,7 +136,7 @@ fn dummy(n: usize) -> TypingContext {
 }
 
 /// instruction list: prelude (load sentinels), the real code of the substitution, stop label
-fn fragment<B, Code, Temporary: Ord + Hash + Copy, Immediate>(p: &Plan) -> Vec<Code>
+fn fragment<B, Code, Temporary: Ord + Hash + Copy, Immediate>(p: &Plan, stmt: Option<Statement>) -> Vec<Code>
 where
     B: Config<Temporary, Immediate> + Instructions<Code, Temporary, Immediate> + Memory<Code, Temporary> + ParallelMoves<Code, Temporary> + Utils<Temporary>,
 {
@@ -149,9 +149,8 @@ where
         B::load_immediate(B::fresh_temporary(TemporaryNumber::Fst, &ctx), B::i64_to_immediate(*f as i64), &mut ins);
         B::load_immediate(B::fresh_temporary(TemporaryNumber::Snd, &ctx), B::i64_to_immediate(*s as i64), &mut ins);
     }
-    let stmt = Statement::Substitute(Substitute {
-        rearrange: p.rearrange.clone(),
-        next: Rc::new(Statement::Call(Call { label: Identifier { name: "verif_stop".into(), id: 0 }, args: TypingContext { bindings: vec![] } })),
+    let stmt = stmt.unwrap_or_else(|| {
+        Statement::Substitute(Substitute { rearrange: p.rearrange.clone(), next: Rc::new(stop_statement()) })
     });
     stmt.code_statement::<B, _, _, _>(&[], p.old_ctx.clone(), &mut ins);
     ins.push(B::label("verif_stop_".into()));
@@ -159,25 +158,34 @@ where
     ins
 }
 
+pub fn stop_statement() -> Statement {
+    Statement::Call(Call { label: Identifier { name: "verif_stop".into(), id: 0 }, args: TypingContext { bindings: vec![] } })
+}
+
 pub fn text_for(isa: usize, p: &Plan) -> Result<String, pipeline::StageErr> {
-    pipeline::guarded("substitute-codegen", || match isa {
+    text_for_stmt(isa, p, None)
+}
+
+/// prelude + code of one arbitrary statement (which must end in `stop_statement()` on every path)
+pub fn text_for_stmt(isa: usize, p: &Plan, stmt: Option<Statement>) -> Result<String, pipeline::StageErr> {
+    pipeline::guarded("statement-codegen", || match isa {
         0 => {
-            let ins = fragment::<axcut2x86_64::Backend, _, _, _>(p);
+            let ins = fragment::<axcut2x86_64::Backend, _, _, _>(p, stmt);
             axcut2x86_64::into_routine::into_x86_64_routine(AssemblyProg { instructions: ins, number_of_arguments: 0 }).print_to_string(None)
         }
         1 => {
-            let ins = fragment::<axcut2aarch64::Backend, _, _, _>(p);
+            let ins = fragment::<axcut2aarch64::Backend, _, _, _>(p, stmt);
             axcut2aarch64::into_routine::into_aarch64_routine(AssemblyProg { instructions: ins, number_of_arguments: 0 }).print_to_string(None)
         }
         _ => {
-            let ins = fragment::<axcut2rv64::Backend, _, _, _>(p);
+            let ins = fragment::<axcut2rv64::Backend, _, _, _>(p, stmt);
             axcut2rv64::into_routine::into_rv64_routine(AssemblyProg { instructions: ins, number_of_arguments: 0 })
         }
     })
 }
 
 /// value of a temporary in a snapshot
-fn read_temp(isa: usize, snap: &Snapshot2, pos: usize, number: TemporaryNumber) -> Option<(u64, bool)> {
+pub fn read_temp(isa: usize, snap: &Snapshot2, pos: usize, number: TemporaryNumber) -> Option<(u64, bool)> {
     let ctx = dummy(pos);
     match isa {
         0 => {
@@ -201,7 +209,7 @@ fn read_temp(isa: usize, snap: &Snapshot2, pos: usize, number: TemporaryNumber) 
     }
 }
 
-fn reg_of(isa: usize, snap: &Snapshot2, which_heap: bool) -> (u64, bool) {
+pub fn reg_of(isa: usize, snap: &Snapshot2, which_heap: bool) -> (u64, bool) {
     match isa {
         0 => {
             use axcut2x86_64::config::Temporary;
@@ -226,7 +234,7 @@ fn reg_of(isa: usize, snap: &Snapshot2, which_heap: bool) -> (u64, bool) {
     }
 }
 
-fn run_text(isa: usize, text: &str, heap: &[u64]) -> Result<emu::EmuResult, String> {
+pub fn run_text(isa: usize, text: &str, heap: &[u64]) -> Result<emu::EmuResult, String> {
     let cfg = EmuConfig { heap_bytes: 1 << 16, max_instructions: 200_000, heap_check_every: 0, footprint_check: false, stop_label: Some("verif_stop_".into()), init_heap: Some(heap.to_vec()) };
     match isa {
         0 => Ok(emu::x86::run(&emu::x86::parse(text)?, &[], &cfg)),
@@ -239,7 +247,7 @@ thread_local! {
     static BASE_SP: std::cell::RefCell<[Option<u64>; 3]> = const { std::cell::RefCell::new([None; 3]) };
 }
 
-fn baseline_sp(isa: usize) -> Option<u64> {
+pub fn baseline_sp(isa: usize) -> Option<u64> {
     if let Some(v) = BASE_SP.with(|b| b.borrow()[isa]) {
         return Some(v);
     }
